@@ -77,6 +77,9 @@ fn main() {
             }
         }
     }
+    let mut small = asys::grid::with_small_lane_buf(&cfgs);
+    small.extend(cfgs);
+    let cfgs = small;
     run_grid(&ctx, GridSpec { name: "as-grid-d1".into(), cfgs, bound: 1, max_exec_per_cfg: 20_000, wall_cap_s: if quick { 25.0 } else { 600.0 } });
 
     // --- leg 2: single-remote core, d <= 2 (3 thorough)
